@@ -11,7 +11,11 @@
     * `order_is_sort`, `ring_of_monotone_keys`   `_order_nodes` = first entry, then the others sorted
                                                  by key, then padding — for lists of ANY length;
     * `dual_rows_are_node_faces`, `model_meets_discrete_spec`
-                                                 rows are exactly the node's faces, padding at the end;
+                                                 rows are exactly the node's faces (wherever the padding
+                                                 of the node_face row sits), padding at the end;
+    * `gather_asis_eq_of_endPadded`, `dualRow_asis_eq_of_endPadded`, `asis_prefix_gather_drops_face`
+                                                 the prefix gather of the code as found is right exactly on
+                                                 end-padded rows and loses a face on `[6, FILL, 7, 8]`;
     * `side_sign_ccw`, `side_tproj`, `tri_tproj`, `tproj_orth`
                                                  the side test is the sign of −c·(t₀×d) (polynomial
                                                  identities), unchanged by the tangent projection;
@@ -164,31 +168,30 @@ theorem intLt_strictOrder : StrictOrder (fun a b : Int => decide (a < b)) where
 
 /-! ### rows of the dual table -/
 
-/-- the precondition on one kept node: its row of `node_face_connectivity` is padded at the end
-    and the keys of its faces (other than the first) are distinct and strictly inside `(zero, twoPi)` -/
+/-- the precondition on one kept node: the keys of its faces (other than the first) are distinct
+    and strictly inside `(zero, twoPi)`.  Nothing is assumed about where the padding of the
+    `node_face_connectivity` row sits. -/
 def NodeOK {K : Type} (lt : K → K → Bool) (zero twoPi : K) (keyOf : Nat → Int → Int → K)
     (NF : Table) (i : Nat) : Prop :=
-  EndPadded (rowAt NF i) ∧
   ∀ first rest, real (rowAt NF i) = first :: rest →
     (rest.map (keyOf i first)).Pairwise (· ≠ ·) ∧
     ∀ f ∈ rest, lt zero (keyOf i first f) = true ∧ lt (keyOf i first f) twoPi = true
 
-/-- **each dual face's corners are exactly the primal faces meeting at the node, the first one
-    kept in place, the others sorted by key, padding only at the end.** -/
+/-- **each dual face's corners are exactly the primal faces meeting at the node (padding of the
+    node's row ANYWHERE), the first one kept in place, the others sorted by key, padding only at
+    the end.** -/
 theorem dual_rows_are_node_faces {K : Type} {lt : K → K → Bool} (h : StrictOrder lt)
     (zero twoPi : K) (keyOf : Nat → Int → Int → K) (NF : Table) (W i : Nat)
     (hv : 3 ≤ valence (rowAt NF i)) (hok : NodeOK lt zero twoPi keyOf NF i) :
     RowOK (rowAt NF i) (dualRow lt zero twoPi keyOf W i (rowAt NF i)) ∧
-    (dualRow lt zero twoPi keyOf W i (rowAt NF i)).head? = (rowAt NF i).head? := by
-  obtain ⟨hpad, hkeys⟩ := hok
-  obtain ⟨_, htake⟩ := endPadded_split _ hpad
+    (dualRow lt zero twoPi keyOf W i (rowAt NF i)).head? = (real (rowAt NF i)).head? := by
   have hne := real_ne_fill (rowAt NF i)
   cases hreal : real (rowAt NF i) with
   | nil =>
     have : valence (rowAt NF i) = 0 := by unfold valence; unfold real at hreal; rw [hreal]; rfl
     omega
   | cons first rest =>
-    obtain ⟨hdist, hrange⟩ := hkeys first rest hreal
+    obtain ⟨hdist, hrange⟩ := hok first rest hreal
     have hfirst : first ≠ FILL := hne first (by rw [hreal]; exact List.mem_cons_self)
     have hrest : ∀ f ∈ rest, f ≠ FILL := fun f hf => hne f (by rw [hreal]; exact List.mem_cons_of_mem _ hf)
     -- the items the code builds
@@ -200,8 +203,9 @@ theorem dual_rows_are_node_faces {K : Type} {lt : K → K → Bool} (h : StrictO
       simp [this]
     have hrow : dualRow lt zero twoPi keyOf W i (rowAt NF i)
         = orderNodes lt zero twoPi W first (rest.map (fun f => (keyOf i first f, f))) := by
-      unfold dualRow
-      rw [htake, hreal]
+      unfold dualRow dualRowWith gatherRow
+      simp only [if_true]
+      rw [hreal]
       have : (first != FILL) = true := by simpa using hfirst
       simp only [this, if_true, hitems]
     set items := rest.map (fun f => (keyOf i first f, f)) with hitemsdef
@@ -229,21 +233,35 @@ theorem dual_rows_are_node_faces {K : Type} {lt : K → K → Bool} (h : StrictO
     obtain ⟨hep, hrl⟩ := endPadded_append_fill (first :: (sortByKey lt items).map (·.2))
       (W - (items.length + 1)) hbody
     rw [hrow, hout]
-    refine ⟨⟨hep, ?_⟩, ?_⟩
-    · rw [hrl, hreal]
-      exact List.Perm.cons first hvals
-    · have : (rowAt NF i).head? = some first := by
-        have h1 : (real (rowAt NF i)).head? = some first := by rw [hreal]; rfl
-        have h2 := (endPadded_split _ hpad).1
-        rw [h2] at h1
-        cases hrw : rowAt NF i with
-        | nil => rw [hrw] at h1; simp at h1
-        | cons a l =>
-          rw [hrw, List.takeWhile_cons] at h1
-          split at h1
-          · simp at h1; simp [h1]
-          · simp at h1
-      rw [this]; rfl
+    refine ⟨⟨hep, ?_⟩, rfl⟩
+    rw [hrl, hreal]
+    exact List.Perm.cons first hvals
+
+/-- the gather of the code as found (`nfc[i][0:n_edges[i]]`) agrees with the repaired one exactly
+    on rows padded at the end — the hypothesis the snapshot silently relied on -/
+theorem gather_asis_eq_of_endPadded (r : List Int) (h : EndPadded r) :
+    gatherRow false r = gatherRow true r := by
+  unfold gatherRow
+  simp only [Bool.false_eq_true, if_false, if_true]
+  exact (endPadded_split r h).2
+
+theorem dualRow_asis_eq_of_endPadded {K : Type} (lt : K → K → Bool) (zero twoPi : K)
+    (keyOf : Nat → Int → Int → K) (W i : Nat) (r : List Int) (h : EndPadded r) :
+    dualRowWith false lt zero twoPi keyOf W i r = dualRow lt zero twoPi keyOf W i r := by
+  unfold dualRow dualRowWith
+  rw [gather_asis_eq_of_endPadded r h]
+
+/-- **as found, a row with padding in the middle loses a face** (a source-supplied
+    `node_face_connectivity`, e.g. MPAS `cellsOnVertex` of a regional mesh): node with faces
+    6, 7, 8 stored as `[6, FILL, 7, 8]` — the prefix gather reads `[6, FILL, 7]`, face 8 is lost. -/
+theorem asis_prefix_gather_drops_face :
+    dualRowWith false (fun a b : Int => decide (a < b)) 0 100 (fun _ _ f => f) 4 0 [6, FILL, 7, 8]
+        = [6, 7, FILL, FILL] ∧
+    ¬ RowOK [6, FILL, 7, 8]
+        (dualRowWith false (fun a b : Int => decide (a < b)) 0 100 (fun _ _ f => f) 4 0 [6, FILL, 7, 8]) ∧
+    RowOK [6, FILL, 7, 8]
+        (dualRow (fun a b : Int => decide (a < b)) 0 100 (fun _ _ f => f) 4 0 [6, FILL, 7, 8]) := by
+  decide
 
 /-- **the model meets the discrete specification**: for EVERY node-face table in which the kept
     nodes meet `NodeOK`, the table built by `construct_faces` has one row per node of valence ≥ 3
